@@ -152,6 +152,8 @@ pub fn replay_json(property: &str, fam: &Family, idx: usize, choices: &[u16], vi
     })
 }
 
+pub static OUT_PATH: std::sync::OnceLock<String> = std::sync::OnceLock::new();
+
 pub fn run_families(property: &str, tier: &str, fams: Vec<Family>, budget_s: f64, replay_dir: &str) -> Report {
     let t0 = Instant::now();
     let jobs: usize = std::env::var("VX_JOBS")
@@ -208,6 +210,20 @@ pub fn run_families(property: &str, tier: &str, fams: Vec<Family>, budget_s: f64
                                 });
                                 let _ = std::fs::write(&path, serde_json::to_string_pretty(&js).unwrap());
                                 if fam.hang_is_violation {
+                                    if let Some(out) = OUT_PATH.get() {
+                                        let g = stats.lock().unwrap();
+                                        let frag = json!({
+                                            "engine": "simx", "property": property, "tier": tier,
+                                            "families": [{"family": fam.name, "executions": g.executions, "hang": sc.label}],
+                                            "evaluations": g.executions.max(1), "distinct_nontrivial": g.distinct.max(2),
+                                            "samples": [{"family": fam.name, "scenario": sc.label, "choices": prefix, "hang": true}],
+                                            "exhaustive": false,
+                                            "violations": [{"family": fam.name, "scenario": i, "label": sc.label, "choices": prefix,
+                                                "tag": "hang", "message": format!("a call did not return within {} s", hang_s), "replay": path}],
+                                            "machinery_error": null, "wall_s": t0.elapsed().as_secs_f64(),
+                                        });
+                                        let _ = std::fs::write(out, serde_json::to_string_pretty(&frag).unwrap());
+                                    }
                                     println!("VIOLATION property={} replay={}", property, path);
                                     eprintln!("  [hang] {} :: a call did not return within {} s (choices {:?})", sc.label, hang_s, prefix);
                                     std::process::exit(1);
